@@ -102,3 +102,11 @@ package io
 //@ func (*offsetReadSeeker).ReadByte
 //@   implements (io.ByteReader).ReadByte
 //@   modifies o.off, pos(o)
+
+//@ func ToReaderAt
+//@   ensures identity [C03,C07]: implements(rs, "io.ReaderAt") ==> ref(result) == ref(rs)
+//@   ensures nonnil [C03,C07]: result != nil
+
+//@ func ToReadSeeker
+//@   ensures identity [C07]: implements(ra, "io.ReadSeeker") ==> ref(result) == ref(ra)
+//@   ensures nonnil [C07]: result != nil
